@@ -290,9 +290,28 @@ def run(ctx):
     fdir = os.path.join(d, "findings")
     os.makedirs(c03dir, exist_ok=True)
     n, mal = (300, 100) if thorough else (60, 20)
-    rc, out = vlib.sh([fbin, "-outdir", c03dir, "-seed", str(ctx.seed), "-n", str(n), "-mal", str(mal)], timeout=600)
-    if rc != 0:
-        raise RuntimeError("formats harness (C03 seed generation) failed: " + out[-2000:])
+    rc, out = vlib.sh([fbin, "-list"], timeout=60)
+    todo = [f["name"] for f in json.loads(out.strip().splitlines()[-1])]
+    while todo:
+        rc, out = vlib.sh([fbin, "-outdir", c03dir, "-seed", str(ctx.seed), "-n", str(n), "-mal", str(mal), "-formats", ",".join(todo)], timeout=600)
+        ran = set(re.findall(r"^format=(\w+) cases=", out, re.M))
+        if rc == 3:
+            # an Extract call exceeded the generator harness' own deadline: that is a hang of a built-in extractor on a concrete file
+            m = re.search(r"^timeout format=(\w+) case=(\d+)", out, re.M)
+            if not m:
+                raise RuntimeError("formats harness timeout report not understood: " + out[-800:])
+            last = [json.loads(l) for l in open(os.path.join(c03dir, "C03_%s.jsonl" % m.group(1)))][-1]
+            ctx.violation({"kind": "extractor-hang", "extractor_format": m.group(1), "path": last.get("path"),
+                           "case": {"format": last.get("format"), "path": last.get("path"), "bytes_b64": last.get("bytes_b64"), "text": last.get("text"),
+                                    "stream": last.get("stream"), "tags": last.get("tags")},
+                           "observed": last.get("observed"),
+                           "explanation": "Extract did not return within the deadline on this generated (C03 generator) file: the extractor hangs; "
+                                          "replay with `bin/check C03 --replay` on a file {\"case\": ...} or feed bytes_b64 to fuzzextract -replay"})
+            todo = [f for f in todo if f not in ran]
+        elif rc != 0:
+            raise RuntimeError("formats harness (C03 seed generation) failed: " + out[-2000:])
+        else:
+            todo = []
     for f in os.listdir(c03dir):
         if f.endswith(".v"):
             os.remove(os.path.join(c03dir, f))
